@@ -306,4 +306,10 @@ def satisfiedBy {V} (P : Pep V) (pred : List (List Char × V)) (vs : List Char) 
   | .error e => .error e
   | .ok v => satLoop P v pred
 
+/-- one predicate object asked about several candidates in turn: the object has no state besides
+    `pred`, which `satisfied_by` only reads, so the k-th answer is that of the k-th candidate alone -/
+def satRun {V} (P : Pep V) (pred : List (List Char × V)) : List (List Char) → List (Except Err Bool)
+  | [] => []
+  | vs :: rest => satisfiedBy P pred vs :: satRun P pred rest
+
 end Oslo.Version
